@@ -224,6 +224,7 @@ fn cmd_check(args: &[String]) -> i32 {
     let ff = load_findings(&format!("{}/known_findings.json", dir));
     let mut known_seen: BTreeMap<String, u64> = BTreeMap::new();
     let mut known_what: BTreeMap<String, String> = BTreeMap::new();
+    let mut known_first: BTreeMap<String, (usize, trace::Violation)> = BTreeMap::new();
     // first unknown violation per class
     let mut unknown: BTreeMap<String, (usize, trace::Violation)> = BTreeMap::new();
     let mut unknown_total = 0usize;
@@ -237,6 +238,7 @@ fn cmd_check(args: &[String]) -> i32 {
                 Some(k) => {
                     let key = format!("{} {}", k.class, k.facts);
                     *known_seen.entry(key.clone()).or_insert(0) += 1;
+                    known_first.entry(key.clone()).or_insert((i, v.clone()));
                     known_what.insert(key, format!("property={} {}", k.property, k.what));
                 }
                 None => {
@@ -248,6 +250,21 @@ fn cmd_check(args: &[String]) -> i32 {
     }
     for (k, what) in &known_what {
         println!("KNOWN-FINDING: {} [seen in {} runs]", what, known_seen[k]);
+    }
+    if arg_val(args, "--dump-known").is_some() {
+        // documentation aid: a minimised replay file for every listed finding that was seen
+        let kdir = format!("{}/replays/known", dir);
+        let _ = std::fs::create_dir_all(&kdir);
+        for (key, (i, v)) in &known_first {
+            let s = all[*i];
+            let (mt, mv) = minimise(&s.out.trace, v, &mon, &ff, 300);
+            let mo = replay_in(&mt, &mon);
+            let rf = ReplayFile { trace: mt, violation: mv, loghash: hex(mo.loghash), minimised_from_steps: s.out.trace.steps.len() };
+            let name: String = key.chars().map(|c| if c.is_ascii_alphanumeric() { c } else { '_' }).take(90).collect();
+            let path = format!("{}/{}.json", kdir, name);
+            std::fs::write(&path, serde_json::to_vec_pretty(&rf).unwrap()).expect("write known replay");
+            println!("known-finding replay written: {}", path);
+        }
     }
     let mut exit = 0;
     let mut idx = 0;
